@@ -9,7 +9,7 @@ CHECKS = {
    technique="exhaustive single-fault enumeration over sealed envelopes and exhaustive enumeration of the verification matrix on the real code"),
  "C18": dict(category="fault_enumeration", design="§3 C18",
    text="Fault enumeration on the real evy binary with strace -e inject: for each configuration (5 inputs x 6 modes x permission bits) a baseline run collects the ordered list of file-system syscalls touching the scratch directory; every element is then failed once with each of ENOSPC/EIO/EACCES and once killed with SIGKILL on entry; coverage is verified from the strace log and gaps are reported. After every run the target holds its complete original or complete formatted text, mode bits are unchanged, unparsable files are untouched with non-zero exit, failures are reported, and -c exits 0 exactly for formatted input without modifying anything.",
-   note="Process kill, not power loss; strace cannot produce partial writes; a few fault points per run may be missed because Go moves the goroutine between threads (listed as gaps, exhaustive:false).",
+   note="Process kill, not power loss; strace cannot produce partial writes; a fault point may be missed because Go moves the goroutine between threads; misses are retried one at a time and, if still missed, listed as gaps (exhaustive:false).",
    technique="exhaustive single-fault and kill-point enumeration over the recorded syscall history of the real binary (strace injection)"),
  "C19": dict(category="model_checking", design="§3 C19",
    text="All sequences of length <= 3 (quick) / 4 (thorough) over ~55 drawing and style commands run through the real evaluator with the real SVG platform and WriteSVG; the output must parse as XML; flattening group inheritance and root attributes must give exactly the shape list of a reference pen state machine written from docs/builtins.md (one shape per command, in order, geometry x10 with y flipped for every kind of shape, stroke/fill/width/dash/linecap/font in effect at drawing time); out-of-domain arguments must terminate with completion or the documented panic; single commands also go through the evy run --svg-out binary.",
@@ -86,6 +86,28 @@ CHECKS = {
 }
 NOT_YET = {}
 
+# extensions made after the seeded-change rounds (DESIGN.md §10), appended to the level text
+EXT = {
+ "C01": " Also: a fourth context (tight argument followed by arguments starting with - and [), operands of type any / []any holding numbers, strings and separately built composites of equal and of differing element types.",
+ "C02": " Also: programs that use a name whose declaration failed, any-equality across element types, failing operands inside slice bounds.",
+ "C04": " Also: every binding site as a source of variables (loop variable over literal / variable / map, parameter, variadic parameter, function result, element of a variable), literals mixing a variable with literals of the same, another or no element type in both orders, concatenations of differently nested empties.",
+ "C05": " Two further rules: two parameters with one name; a variable declared in one branch of an if statement used in the next branch; type-mismatch mutants also substitute a variable of type any where the construct needs a concrete type.",
+ "C06": " Also: every seed with one stray token appended to a line or one punctuation token replaced by another - whatever the parser accepts must survive formatting; comments inside empty literals; own-line comments after blank lines inside literals; word operators without blanks in whitespace-sensitive positions; a 10-level nesting.",
+ "C07": " Also: Format applied three times to the same Program object; evy fmt -c over every list of 1..3 files out of {formatted, unformatted} x {.evy, .txtar}; layouts without final newline and with blanks after comments.",
+ "C08": " Also: literal typing with several map values, map duplication (repetition, slicing, arguments), every --rand-seed incl. negative ones run repeatedly in fresh processes.",
+ "C09": " Also: repeated concatenation from one base (spare capacity), repetition of wrapped values, err/errmsg inside literals.",
+ "C10": " Also: leaving a loop or function while a shadowing declaration is live; a global declared after the nested body and read by a function.",
+ "C11": " Also: string element stores reached through containers (static errors); the code-point view of errmsg across conversions (index, slice, range).",
+ "C12": " Also: for every transition the state's literal evaluated a second time afterwards (function called twice); range without a loop variable whose body deletes.",
+ "C13": " Also: messages of failed tests (three-argument form is not a format string), non-ASCII map keys in repr, errmsg code points and left-to-right evaluation with err/errmsg as left operand in the err-protocol search.",
+ "C14": " Also: for every effect of the uninterrupted run, a run in which the platform raises the flag inside that effect (Sleep/Read/Print...), once with and once without a Yielder installed; calls as the last evaluated operand of every expression form.",
+ "C15": " Also: single-handler programs behind three top-level preludes that leave loops and functions early before the globals are declared; a parameter with the name of a global.",
+ "C16": " Hand-written programs the parser rejects are a harness error (globals are read automatically), audited by go test -tags verif ./checks.",
+ "C18": " A seventh mode checks a file followed by a formatted file (fmt -c a b); permission bits include group/other write bits under umask 022; fault points missed in the parallel pass are retried one at a time.",
+ "C19": " Also: three drawings x seven ways a program can end (normally, exit 0/3, panic, failed test, run-time error, bad argument) x --svg-out to a file and to stdout through the real binary.",
+ "C20": " Also: choices whose output differs from the question's only in white space or the final newline; a text and an image question over the same program files verified after seven histories of earlier verifications in one process; seal/unseal of the front matter answer incl. surrounding white space.",
+}
+
 def main():
     props = [json.loads(l) for l in open('/verif/properties.jsonl')]
     checks = []
@@ -101,7 +123,7 @@ def main():
               "evidence_file": f"/verif/evidence/{pid}.json",
               "replay_cmd_template": f"./check {pid} --replay {{path}}",
               "engine": "mc",
-              "level_claimed": {"category": c['category'], "text": c['text'], "design_ref": c['design']},
+              "level_claimed": {"category": c['category'], "text": c['text'] + EXT.get(pid, ""), "design_ref": c['design']},
               "level_note": c['note'],
               "technique": c['technique'],
             })
